@@ -4,6 +4,7 @@ from collections.abc import Iterable
 from collections.abc import Sequence
 from dataclasses import dataclass
 import decimal
+import math
 from typing import Any
 from typing import TYPE_CHECKING
 
@@ -23,6 +24,13 @@ from optuna.trial import TrialState
 
 if TYPE_CHECKING:
     from optuna.study import Study
+
+
+def _value_equal(value1: Any, value2: Any) -> bool:
+    # NaN is a valid categorical choice, and ``float("nan") != float("nan")``.
+    if isinstance(value1, float) and isinstance(value2, float):
+        return value1 == value2 or (math.isnan(value1) and math.isnan(value2))
+    return value1 == value2
 
 
 @dataclass
@@ -170,7 +178,9 @@ class BruteForceSampler(BaseSampler):
     ) -> None:
         # Populate tree under given params from the given trials.
         for trial in trials:
-            if not all(p in trial.params and trial.params[p] == v for p, v in params.items()):
+            if not all(
+                p in trial.params and _value_equal(trial.params[p], v) for p, v in params.items()
+            ):
                 continue
             leaf = tree.add_path(
                 (
